@@ -65,7 +65,7 @@ def extra_c14(tier, seed):
             script = sweep_script(n, prof["manual"], True)
             with open(base + ".script", "w") as f:
                 f.write(script)
-            vlib.run_harness(exe, script, base + ".raw.ndjson", timeout=300)
+            vlib.run_harness(exe, script, base + ".raw.ndjson", timeout=60)
         finally:
             shutil.rmtree(bdir, ignore_errors=True)
         traceprep.write_for_tlc(base + ".raw.ndjson", base + ".tlc.ndjson")
@@ -204,7 +204,7 @@ def extra_c19(tier, seed):
             if exe is None:
                 return idx, prof, None, blog
             raw = os.path.join(wd, "m%d.raw.ndjson" % idx)
-            vlib.run_harness(exe, NEUTRAL, raw, timeout=60)
+            vlib.run_harness(exe, NEUTRAL, raw, timeout=20)
         finally:
             shutil.rmtree(bdir, ignore_errors=True)
         return idx, prof, raw, ""
